@@ -44,6 +44,7 @@ func alphabet() []lexeme {
 		{text: "FOO", gram: []int{gBAD}},
 		{text: "and", gram: []int{gBAD}},
 		{text: "LicenseRef-x", gram: []int{gREF}},
+		{text: "LicenseRef-Apache-2.0-or-later", gram: []int{gREF}},
 		{text: "DocumentRef-d", gram: []int{gDOC}},
 		{text: ":", gram: []int{gCOLON}, punct: true},
 		{text: "(", gram: []int{gLP}, punct: true},
@@ -304,6 +305,112 @@ func genC05(c *Ctx) {
 			}
 			if r != exp {
 				c.fail("ValidateLicenses", []string{s}, r, exp, "independent recogniser for the grammar of the property text applied to the lexeme sequence this string was rendered from (ids normalised by the documented -only / -or-later / + rules)")
+			}
+		}
+	}
+	// the documented suffix forms of EVERY listed id (R2): validity by the normalisation rules, computed here
+	// from the lists alone
+	lookupAE := func(w string) (string, bool) { // active or exception list
+		for _, l := range [][]string{tActive, tExcs} {
+			for _, x := range l {
+				if strings.EqualFold(x, w) {
+					return x, true
+				}
+			}
+		}
+		return "", false
+	}
+	isExc := func(w string) bool {
+		for _, x := range tExcs {
+			if strings.EqualFold(x, w) {
+				return true
+			}
+		}
+		return false
+	}
+	isDep := func(w string) bool {
+		for _, x := range tDeprec {
+			if strings.EqualFold(x, w) {
+				return true
+			}
+		}
+		return false
+	}
+	// tokens of "word[+...]" as grammar kinds; nil = unknown id
+	unit := func(w string, plusFollows bool) (g []int, eats bool) {
+		if _, ok := lookupAE(w); ok {
+			if isExc(w) {
+				return []int{gEXC}, false
+			}
+			return []int{gLIC}, false
+		}
+		if strings.HasSuffix(w, "-only") {
+			if _, ok := lookupAE(strings.TrimSuffix(w, "-only")); ok {
+				if isExc(strings.TrimSuffix(w, "-only")) {
+					return []int{gEXC}, false
+				}
+				return []int{gLIC}, false
+			}
+		}
+		if plusFollows {
+			if _, ok := lookupAE(w + "-or-later"); ok {
+				return []int{gLIC}, true
+			}
+		}
+		if strings.HasSuffix(w, "-or-later") {
+			if _, ok := lookupAE(strings.TrimSuffix(w, "-or-later")); ok {
+				if isExc(strings.TrimSuffix(w, "-or-later")) {
+					return []int{gEXC, gPLUS}, false
+				}
+				return []int{gLIC, gPLUS}, false
+			}
+		}
+		if isDep(w) {
+			return []int{gLIC}, false
+		}
+		return nil, false
+	}
+	expectTerm := func(w string, pluses int, tail []int) string {
+		g, eats := unit(w, pluses > 0)
+		if g == nil {
+			return "0"
+		}
+		if eats {
+			pluses--
+		}
+		for i := 0; i < pluses; i++ {
+			g = append(g, gPLUS)
+		}
+		g = append(g, tail...)
+		p := &recog{g: g}
+		if p.expr() && p.i == len(g) {
+			return "1"
+		}
+		return "0"
+	}
+	for _, x := range append(append(append([]string{}, tActive...), tDeprec...), tExcs...) {
+		if !isIDWord(x) {
+			continue
+		}
+		for _, sfx := range []string{"", "-only", "-or-later", "-only-only", "-or-later-only", "-only-or-later", "-ly-only", "-noyl-only", "-or-later-or-later", "-ONLY", "-Or-Later"} {
+			for pl := 0; pl <= 2; pl++ {
+				s := x + sfx + strings.Repeat("+", pl)
+				want := expectTerm(x+sfx, pl, nil)
+				if r := c.V(s); r != unknown && r != want {
+					c.fail("ValidateLicenses", []string{s}, r, want, "documented normalisation of the suffix forms (-only stripped when unlisted, + folded into a listed -or-later id, unlisted -or-later read as +), then the grammar")
+				}
+				c.count("suffix_forms")
+				if pl == 0 && (sfx == "" || sfx == "-only" || sfx == "-or-later") {
+					s2 := "MIT WITH " + x + sfx
+					g, _ := unit(x+sfx, false)
+					want2 := "0"
+					if len(g) == 1 && g[0] == gEXC {
+						want2 = "1"
+					}
+					if r := c.V(s2); r != unknown && r != want2 {
+						c.fail("ValidateLicenses", []string{s2}, r, want2, "after WITH only an exception id (possibly with an ignored -only) is accepted")
+					}
+				}
 			}
 		}
 	}
@@ -709,7 +816,7 @@ func genC10(c *Ctx) {
 				t2, p = rewrite(c.rng, t2, leafPool)
 				pres = pres && p
 			}
-			e2 := t2.render(c.rng.Intn(3), c.rng)
+			e2 := t2.render(c.rng.Intn(5), c.rng)
 			c.count("rewritten_pairs")
 			if k == 0 {
 				c.sample(e1 + "  ==>  " + e2)
@@ -732,7 +839,7 @@ func genC10(c *Ctx) {
 	// decomposition: Satisfies("(E) AND (F)", A) = Satisfies(E,A) && Satisfies(F,A)
 	for k := 0; k < len(base); k++ {
 		E, F := base[k], base[(k*7+3)%len(base)]
-		se, sf := E.render(c.rng.Intn(3), c.rng), F.render(c.rng.Intn(3), c.rng)
+		se, sf := E.render(c.rng.Intn(5), c.rng), F.render(c.rng.Intn(5), c.rng)
 		var cand []string
 		for _, l := range uniq(append(E.leaves(), F.leaves()...)) {
 			rel := related(l)
@@ -891,6 +998,7 @@ func genC11(c *Ctx) {
 			}
 		}
 	}
+	c.checkAliasing()
 	// table well-formedness, witnessed directly on LicenseRanges()
 	isListed := map[string]bool{}
 	for _, x := range listed {
@@ -963,7 +1071,7 @@ func genC15(c *Ctx) {
 			}
 			i := 0
 			t := label(sh, lab, &i)
-			prefixes = append(prefixes, t.render(c.rng.Intn(3), c.rng))
+			prefixes = append(prefixes, t.render(c.rng.Intn(5), c.rng))
 		}
 	}
 	deep := 200
@@ -978,7 +1086,7 @@ func genC15(c *Ctx) {
 			lab = append(lab, c.rng.Pick(pool))
 		}
 		i := 0
-		prefixes = append(prefixes, label(sh, lab, &i).render(c.rng.Intn(3), c.rng))
+		prefixes = append(prefixes, label(sh, lab, &i).render(c.rng.Intn(5), c.rng))
 	}
 	junk := []string{"FOO", "FOO-or-later", "unknown-1.0+", "LicenseRef-", "DocumentRef-", "LicenseRef-!", "DocumentRef-:", "é", "\xff", "_x", "Apache-3.0-or-later", "GPL-9.0-only", "x-or-later-or-later", "-or-later", "!"}
 	glue := []string{" AND ", " OR ", " AND (", " OR (MIT AND ", "  AND  ", " WITH ", " ", "", "+ AND ", " AND MIT AND "}
@@ -1031,5 +1139,57 @@ func genC15(c *Ctx) {
 		check("Apache-2.0-or-later\tAND " + j)
 		check("(Apache-2.0-or-later OR MIT-or-later) AND " + j)
 	}
-	// same through Satisfies' two argument positions: the message must be the same as ExtractLicenses'
+	// the same through Satisfies: the expression argument, and an allowed entry at any position of the list
+	// (earlier entries may themselves have been rewritten: -or-later forms)
+	located := func(what string, s string, r string, args interface{}) {
+		f := strings.Split(r, " ")
+		var o int
+		switch f[0] {
+		case "unk":
+			fmt.Sscanf(f[1], "%d", &o)
+			w := unhx(f[2])
+			if o < 0 || o+len(w) > len(s) || s[o:o+len(w)] != w {
+				c.fail("Satisfies", args, fmt.Sprintf("unknown license %q at offset %d", w, o), "the lexeme at that offset of "+what, "s[o:o+len(w)] == w on the string passed in")
+			}
+		case "eid":
+			fmt.Sscanf(f[1], "%d", &o)
+			if o < 0 || o > len(s) || (o < len(s) && isIDWord(s[o:o+1])) {
+				c.fail("Satisfies", args, fmt.Sprintf("expected id at offset %d", o), "an offset of "+what+" where no id starts", "0 <= o <= len(s) and no id character there")
+			}
+		}
+	}
+	goodEntries := []string{"MIT", "Apache-1.0-or-later", "MIT-or-later", "GPL-2.0-or-later", "(Zlib-or-later)", " ISC-or-later+"}
+	for i, p := range prefixes {
+		if i%3 != 0 && !c.thorough() {
+			continue
+		}
+		// every random choice is made before any answer is looked at (the generator is re-run until all calls are known)
+		bad := p + glue[c.rng.Intn(len(glue))] + junk[c.rng.Intn(len(junk))]
+		k := c.rng.Intn(4)
+		A := append([]string{}, c.rng.Shuffle(goodEntries)[:k]...)
+		A = append(A, bad)
+		A = append(A, c.rng.Shuffle(goodEntries)[:c.rng.Intn(3)]...)
+		vbad := c.V(bad)
+		rq := c.Q(bad, []string{"MIT"})
+		ra := c.Q("MIT", A)
+		if vbad != "0" {
+			continue
+		}
+		c.count("satisfies_error_positions")
+		if rq != unknown {
+			located("the expression", bad, rq, map[string]interface{}{"expression": bad, "allowed": []string{"MIT"}})
+		}
+		ok := true
+		for _, a := range A[:k] {
+			if c.V(a) != "1" {
+				ok = false
+			}
+		}
+		if !ok {
+			continue
+		}
+		if ra != unknown {
+			located("the first invalid allowed entry", bad, ra, map[string]interface{}{"expression": "MIT", "allowed": A})
+		}
+	}
 }
